@@ -586,6 +586,12 @@ func (vm *VM) nextCall() bool {
 					vm.calls[i] = vm.calls[i+1]
 					vm.calls[i].status = panicked
 					if call.cl.fn != nil {
+						// Move the registers of the panicked call below
+						// the registers of the deferred call, as the
+						// deferred call would otherwise overwrite them.
+						if fn := vm.calls[i].cl.fn; fn != nil {
+							vm.swapStack(&call.fp, &vm.calls[i].fp, fn.NumReg)
+						}
 						i++
 					} else {
 						// The deferred call is a native call: it is
